@@ -20,3 +20,14 @@ func VerifUnwrap(err error) (inner error, vm *r.VM, parser *syntax.Parser, modul
 	}
 	return err, nil, nil, ""
 }
+
+// VerifYield, when set, is called at the scheduling points of the verification
+// harness (entry of Interpreter.Execute, before every statement).  It lets a
+// cooperative scheduler decide which of several concurrent executions proceeds.
+var VerifYield func(point string)
+
+func verifYield(point string) {
+	if VerifYield != nil {
+		VerifYield(point)
+	}
+}
